@@ -195,7 +195,9 @@ func TestC03AllocFailure(t *testing.T) {
 		}
 		refused++
 		if got := alloc.Bytes(); got != before {
-			t.Fatalf("alloc.Alloc(%d) failed (%v) and %d bytes are reported as allocated, %d before the call: the accounting counts memory that is not held", n, err, got, before)
+			// (the error's own text - ENOMEM - is left out: the driver reads it as
+			// "this machine ran out of memory")
+			t.Fatalf("alloc.Alloc(%d) was refused by the system and %d bytes are reported as allocated, %d before the call: the accounting counts memory that is not held", n, got, before)
 		}
 	}
 	if got := alloc.Bytes(); got != before {
